@@ -531,6 +531,10 @@ class TaintInterp:
         if isinstance(e, ast.BoolOp):
             vals = [self.ev(v, fr) for v in e.values]
             if isinstance(e.op, ast.Or):
+                # `<container> or {}` / `or []`: the container itself unless it is empty - its entries keep their provenance (this is about a
+                # missing dictionary, not about a falsy setting inside it)
+                if len(vals) == 2 and isinstance(vals[0], (TDct, TLst, TTup)) and isinstance(e.values[1], (ast.Dict, ast.List, ast.Tuple)) and not getattr(e.values[1], "keys", getattr(e.values[1], "elts", None)):
+                    return vals[0]
                 # `setting or fallback`: a falsy setting (0, 0.0, False, "") is replaced - recorded as 'alt:<label of the setting>'
                 alts = frozenset("alt:" + l for v in vals[:-1] for l in labels(v) if l.startswith(("hc:", "sc:")))
                 for v in vals:
